@@ -125,6 +125,25 @@ Theorem error_page_content :
     serve h fs m ov None p = (r, ev) -> r_err r = Some c -> fs (error_path h (r_status r)) = Some c.
 Proof. exact err_content_lemma. Qed.
 
+(** 2f. What the operating system is asked to open.  [opened tree f] is the object the path string [f] names
+    in the tree (the names from the root, and whether it is a directory), [None] when the open fails.  For a
+    host with benign options, over ANY tree in which the public directory is the object [rev stP], in any
+    file-cache and response-cache state, for any request: every object opened while the request is handled
+    is the operator's error page for the status of the reply, a directory (a directory has no content: reading
+    it fails), or an object strictly below the public directory.  (The harness observes exactly this list with
+    inotify on every run.) *)
+Theorem opened_objects_confined :
+  forall (h : host_cfg) (rd : bytes -> option bytes) (tree : node) (on : bool) (fc : fcache) (m : meth) (ov : option bytes)
+         (cached : option reply) (p : bytes) (r : reply) (ev : list event) (fc' : fcache) (os : list bytes)
+         (f : bytes) (stP names : list bytes) (isdir : bool),
+    benign_host h ->
+    serve_st h rd on fc m ov cached p = (r, ev, fc', os) -> In f os ->
+    cwalk tree [] (segments (h_path h ++ [c_slash] ++ h_public h)) = Some stP ->
+    opened tree f = Some (names, isdir) ->
+    f = error_path h (r_status r) \/ isdir = true \/
+    exists rel : list bytes, rel <> [] /\ Forall (fun s => proper_name s = true) rel /\ names = rev stP ++ rel.
+Proof. exact opened_objects_confined_lemma. Qed.
+
 (** 3a. An accepted path contains no "./", neither raw nor decoded; so it is different from every
     key that contains "./" — in particular from every internal route "/./…". *)
 Theorem internal_routes_unreachable : forall p : bytes,
@@ -198,6 +217,51 @@ Theorem internal_routes_need_override :
     step_request (strip_internal c) st m t k = step_request c st m t k.
 Proof. exact no_override_strip_lemma. Qed.
 
+(** 9. The definitions (from the proof files) that the statements above rest on, restated here with their
+    bodies: a statement is only as strong as the predicates it uses, and these are pinned like the theorems. *)
+Theorem def_unsafe : forall d : bytes,
+  unsafe d <-> ((exists a b, d = a ++ [c_dot; c_slash] ++ b) \/ ~ (exists r, d = c_slash :: r) \/ (exists r, d = c_slash :: c_slash :: r)).
+Proof. intros d. split; exact (fun H => H). Qed.
+Theorem def_silent : forall ev : list event,
+  silent ev <->
+  forallb (fun e => negb match e with EPrepareSingle _ | EPrepareRun _ | EPrepareFn | EFsRead _ => true | _ => false end) ev = true.
+Proof. intros ev. split; exact (fun H => H). Qed.
+Theorem def_benign_host : forall h : host_cfg,
+  benign_host h <->
+  ((has_dot_slash_b (percent_decode (h_ext_default h)) = false /\ hd_is c_slash (percent_decode (h_ext_default h)) = false) /\
+   (has_dot_slash_b (percent_decode (h_folder_default h)) = false /\ hd_is c_slash (percent_decode (h_folder_default h)) = false)).
+Proof. intros h. split; exact (fun H => H). Qed.
+Theorem def_fc_coherent : forall (rd : bytes -> option bytes) (fc : fcache),
+  fc_coherent rd fc <-> (forall k e, fc_get k fc = Some e -> e = rd k).
+Proof. intros rd fc. split; exact (fun H => H). Qed.
+Theorem def_read_paths : forall ev : list event,
+  read_paths ev = flat_map (fun e => match e with EFsRead f => [f] | EErrRead f => [f] | _ => [] end) ev.
+Proof. reflexivity. Qed.
+Theorem def_answer_ok : forall (c : pcfg) (P : pos) (x : xval),
+  answer_ok c P x <->
+  match x with
+  | XL [XN _; XB b; _; _] =>
+      b = errpage \/ b = cors_denied \/ b = [] \/ (exists k s, In (k, (b, s)) (pc_handlers c)) \/
+      (exists names : list bytes, names <> [] /\ Forall (fun s => proper_name s = true) names /\ descend (fst P) names = Some (File b)) \/
+      (exists status : N, pc_fs c (error_path (pc_host c) status) = Some b)
+  | _ => True
+  end.
+Proof.
+  intros c P x. unfold answer_ok, body_ok, inside, error_page_of.
+  repeat match goal with |- context [match ?y with _ => _ end] => is_var y; destruct y end; split; exact (fun H => H).
+Qed.
+Theorem def_strip_internal : forall c : pcfg,
+  pc_handlers (strip_internal c) = pc_handlers c /\ pc_fs (strip_internal c) = pc_fs c /\ pc_tree (strip_internal c) = pc_tree c /\
+  pc_cache (strip_internal c) = pc_cache c /\ pc_fcache (strip_internal c) = pc_fcache c /\ pc_default_ext (strip_internal c) = pc_default_ext c /\
+  h_prepare_single (pc_host (strip_internal c)) = filter (fun k => negb (has_dot_slash_b k)) (h_prepare_single (pc_host c)) /\
+  h_path (pc_host (strip_internal c)) = h_path (pc_host c) /\ h_public (pc_host (strip_internal c)) = h_public (pc_host c) /\
+  h_errors (pc_host (strip_internal c)) = h_errors (pc_host c) /\ h_fs (pc_host (strip_internal c)) = h_fs (pc_host c) /\
+  h_redirect (pc_host (strip_internal c)) = h_redirect (pc_host c) /\ h_ext_default (pc_host (strip_internal c)) = h_ext_default (pc_host c) /\
+  h_folder_default (pc_host (strip_internal c)) = h_folder_default (pc_host c).
+Proof. intros c. repeat split. Qed.
+Theorem def_has_dot_slash_b : forall d : bytes, has_dot_slash_b d = true <-> exists a b, d = a ++ [c_dot; c_slash] ++ b.
+Proof. exact has_dot_slash_iff. Qed.
+
 (** Non-vacuity. *)
 Definition ex_tree : node :=
   Dir [(B "host", Dir [(B "public", Dir [(B "index.html", File (B "INDEX")); (B "a", Dir [(B "b.txt", File (B "AB"))])]);
@@ -258,6 +322,26 @@ Proof.
   split; [vm_compute; reflexivity|]. split; [vm_compute; reflexivity|]. split; [|vm_compute; reflexivity].
   intros k e H. cbn [fc_get] in H. destruct (beq (B "host/errors/404.html") k) eqn:E; [|discriminate].
   apply beq_eq in E. subst k. inversion H. vm_compute. reflexivity.
+Qed.
+Example ex_opened :
+  opened ex_tree (B "host/public/a//b.txt") = Some ([B "host"; B "public"; B "a"; B "b.txt"], false) /\
+  opened ex_tree (B "host/public/..") = Some ([B "host"], true) /\
+  opened ex_tree (B "host/public/../secret.txt") = Some ([B "host"; B "secret.txt"], false) /\
+  opened ex_tree (B "host/public/missing") = None /\
+  cwalk ex_tree [] (segments (h_path ex_host ++ [c_slash] ++ h_public ex_host)) = Some [B "public"; B "host"].
+Proof. repeat split; vm_compute; reflexivity. Qed.
+(** the hypothesis [benign_host] is needed: an operator whose folder_default is "%2e%2e/secret.txt" has
+    configured the host to serve a file outside the public directory for "/" *)
+Example confinement_without_benign_host_refuted :
+  exists h : host_cfg,
+    ~ benign_host h /\
+    fst (serve h (read_path ex_root ex_root) MGet None None (B "/")) =
+      {| r_status := 200; r_body := Some (B "SECRET"); r_err := None; r_from_cache := false |}.
+Proof.
+  exists {| h_path := B "host"; h_public := B "public"; h_errors := B "errors"; h_fs := true; h_redirect := true;
+            h_ext_default := B "html"; h_folder_default := B "%2e%2e/secret.txt"; h_prepare_single := [] |}.
+  split; [|vm_compute; reflexivity].
+  intros [_ [H _]]. vm_compute in H. discriminate.
 Qed.
 Example ex_internal_key : has_dot_slash (B "/./cors_fail") /\ B "/%2e/cors_fail" <> B "/./cors_fail" /\
                           sanitize_path (B "/%2e/cors_fail") = Err E_UNSAFE.
